@@ -61,7 +61,9 @@ Print Assumptions C16_ring_kth_most_recent.
    C++ data members, with the wrap-around of size_t / long long / int explicit (StatsSem.v).  The theorems below say that
    those transformers ARE the transitions of OnlineStatsModel.v (member by member), and that therefore the statements of
    the property hold of the code as written, for every history.  N is any numeric dictionary in which the literal 1
-   converts to one (the reals, binary64, ...). *)
+   converts to one and the product commutes (the reals, binary64, ...): these are the only two laws the tie needs — the
+   first because the source writes `1 / averagePrecision` with an int literal, the second so that a source that swaps
+   the operands of a floating-point product is still recognised as the same function. *)
 
 (* OnlineAverage, member by member: constructors (incl. multiplier_ = static_cast<int>(1 / averagePrecision)),
    setWindowSize, reset, isAvailable, getAverage preserve / read the relation to the model state *)
@@ -73,17 +75,16 @@ Theorem C16_source_tie_average_members : forall (T : Type) (N : NumOps T), nofZ 
   (forall c m, avg_rel N c m -> src_avg_isAvailable c = o_available m) /\
   (forall c m, avg_rel N c m -> src_avg_getAverage c = o_average N (avg_multiplier_ c) m).
 Proof. exact avg_members_tie. Qed.
-Print Assumptions C16_source_tie_average_members.
 
 (* OnlineAverage::update(value) = the model's update with the truncated sample, as long as the size_t index and the
    long long sums stay inside their types *)
-Theorem C16_source_tie_average_update : forall (T : Type) (N : NumOps T) c m (v : T), avg_rel N c m ->
+Theorem C16_source_tie_average_update : forall (T : Type) (N : NumOps T), (forall a b : T, nmul N a b = nmul N b a) ->
+  forall c m (v : T), avg_rel N c m ->
   let x := o_trunc N (avg_multiplier_ c) v in
   (0 < o_W m)%nat -> (Z.of_nat (o_W m) < two64)%Z -> (o_index m < o_W m)%nat ->
   in_s64 (o_sum m + x) -> in_s64 (o_sum (o_update m x)) ->
   avg_rel N (src_avg_update N c v) (o_update m x) /\ avg_multiplier_ (src_avg_update N c v) = avg_multiplier_ c.
 Proof. exact @tie_avg_update. Qed.
-Print Assumptions C16_source_tie_average_update.
 
 (* OnlineVariance, member by member (constructor incl. squaredMultiplier_ computed in long long, reset, the inherited
    isAvailable / getAverage, getVariance) *)
@@ -97,16 +98,15 @@ Theorem C16_source_tie_variance_members : forall (T : Type) (N : NumOps T), nofZ
   (forall c m, var_rel N c m -> src_var_getAverage c = o_average N (var_multiplier_ c) m) /\
   (forall c m, var_rel N c m -> src_var_getVariance c = o_variance N (var_multiplier_ c) m).
 Proof. exact var_members_tie. Qed.
-Print Assumptions C16_source_tie_variance_members.
 
-Theorem C16_source_tie_variance_update : forall (T : Type) (N : NumOps T) c m (v : T), var_rel N c m ->
+Theorem C16_source_tie_variance_update : forall (T : Type) (N : NumOps T), (forall a b : T, nmul N a b = nmul N b a) ->
+  forall c m (v : T), var_rel N c m ->
   let x := o_trunc N (var_multiplier_ c) v in
   (0 < o_W m)%nat -> (Z.of_nat (o_W m) < two64)%Z -> (o_index m < o_W m)%nat -> length (o_sq m) = length (o_data m) ->
   in_s64 (x * x) -> in_s64 (o_sum m + x) -> in_s64 (o_sumsq m + x * x) ->
   in_s64 (o_sum (o_update m x)) -> in_s64 (o_sumsq (o_update m x)) ->
   var_rel N (src_var_update N c v) (o_update m x) /\ var_multiplier_ (src_var_update N c v) = var_multiplier_ c.
 Proof. exact @tie_var_update. Qed.
-Print Assumptions C16_source_tie_variance_update.
 
 (* RingOfEigenVector, member by member, for every object (size_t arithmetic with both wraps of operator[]) *)
 Theorem C16_source_tie_ring_members : forall (A : Type),
@@ -117,7 +117,6 @@ Theorem C16_source_tie_ring_members : forall (A : Type),
   (forall (c : @ring_state A), ring_abs (src_ring_clear c) = r_clear (ring_abs c)) /\
   (forall (c : @ring_state A), src_ring_size c = Z.of_nat (r_size (ring_abs c))).
 Proof. exact ring_members_tie. Qed.
-Print Assumptions C16_source_tie_ring_members.
 
 (* The property, about the OnlineAverage code as written: for every window 1..64, every precision and every history of
    update/reset whose truncated samples are bounded by 1e8 (so that nothing overflows — proved along the way), the
@@ -125,6 +124,7 @@ Print Assumptions C16_source_tie_ring_members.
    isAvailable() iff W samples since the last reset, and getAverage() is that sum divided by multiplier * count (NaN
    before the first sample) *)
 Theorem C16_source_tie_average_history : forall (T : Type) (N : NumOps T), nofZ N 1 = n_one N ->
+  (forall a b : T, nmul N a b = nmul N b a) ->
   forall prec W (ops : list (oop T)), (0 < W)%nat -> (W <= 64)%nat ->
   let mult := o_multiplier N prec in
   ops_bounded N mult ops ->
@@ -140,11 +140,11 @@ Theorem C16_source_tie_average_history : forall (T : Type) (N : NumOps T), nofZ 
     | _ => Some (ndiv N (nofZ N (zsum (lastn W xs))) (nmul N (nofZ N mult) (nofZ N (Z.of_nat (Nat.min W (length xs))))))
     end.
 Proof. exact @avg_code_window. Qed.
-Print Assumptions C16_source_tie_average_history.
 
 (* the same for the OnlineVariance code; getAverage / getVariance are the model's outputs on the model state reached by
    the same (truncated) history, and the stored samples are the model's *)
 Theorem C16_source_tie_variance_history : forall (T : Type) (N : NumOps T), nofZ N 1 = n_one N ->
+  (forall a b : T, nmul N a b = nmul N b a) ->
   forall prec W (ops : list (oop T)), (0 < W)%nat -> (W <= 64)%nat ->
   let mult := o_multiplier N prec in
   in_s32 mult -> ops_bounded N mult ops ->
@@ -159,7 +159,6 @@ Theorem C16_source_tie_variance_history : forall (T : Type) (N : NumOps T), nofZ
   src_var_getAverage c = o_average N mult s /\ src_var_getVariance c = o_variance N mult s /\
   var_data_ c = o_data s.
 Proof. exact @var_code_window. Qed.
-Print Assumptions C16_source_tie_variance_history.
 
 (* over the reals: the code's getAverage() is the mean of the last min(n,W) truncated samples ... *)
 Theorem C16_source_tie_average_is_mean : forall prec W (ops : list (oop R)), (0 < W)%nat -> (W <= 64)%nat ->
@@ -170,7 +169,6 @@ Theorem C16_source_tie_average_is_mean : forall prec W (ops : list (oop R)), (0 
   L <> [] ->
   src_avg_getAverage c = Some (rsum (map (fun z => IZR z / IZR mult) L) / INR (length L))%R.
 Proof. exact avg_code_real. Qed.
-Print Assumptions C16_source_tie_average_is_mean.
 
 (* ... and its getVariance() the unbiased sample variance of the last W truncated samples once the window is full *)
 Theorem C16_source_tie_variance_is_unbiased : forall prec W (ops : list (oop R)), (2 <= W)%nat -> (W <= 64)%nat ->
@@ -183,7 +181,6 @@ Theorem C16_source_tie_variance_is_unbiased : forall prec W (ops : list (oop R))
   let mean := (rsum ys / INR (length ys))%R in
   src_var_getVariance c = Some (rsum (map (fun y => (y - mean) * (y - mean))%R ys) / (INR (length ys) - 1))%R.
 Proof. exact var_code_real. Qed.
-Print Assumptions C16_source_tie_variance_is_unbiased.
 
 (* the ring-buffer statement about the RingOfEigenVector code as written: every capacity, every history of
    append / clear: size() = min(n, capacity) and operator[](k) is the k-th most recent item *)
@@ -194,7 +191,6 @@ Theorem C16_source_tie_ring_history : forall (A : Type) cap (h : list (rop A)) k
   src_ring_size c = Z.of_nat (Nat.min cap (length xs)) /\
   ((Z.of_nat k < src_ring_size c)%Z -> src_ring_get c (Z.of_nat k) = nth_error (rev xs) k).
 Proof. exact @ring_code_kth. Qed.
-Print Assumptions C16_source_tie_ring_history.
 
 (* ==== FLOATING POINT (IEEE-754 binary64, Flocq; coq/OnlineStatsFloat.v) ====
    B64Ops (GridMapFloat.v) rounds to nearest-even after every + - * / and every integer->double conversion; rnd64 is that
@@ -205,7 +201,6 @@ Print Assumptions C16_source_tie_ring_history.
 Theorem C16_average_binary64_multiplier : forall p : R, (2 / 2000001 <= p <= 1)%R ->
   (1 <= o_multiplier B64Ops p <= 1000000)%Z.
 Proof. exact multiplier_b64. Qed.
-Print Assumptions C16_average_binary64_multiplier.
 
 (* the truncated sample static_cast<long long>(value * multiplier_): bounded by 1e8 when |value * multiplier| is, and
    within one unit plus one rounding of the product *)
@@ -213,7 +208,17 @@ Theorem C16_average_binary64_truncated_sample : forall (m : Z) (v : R), (Z.abs m
   ((Rabs (v * IZR m) <= 100000000)%R -> (Z.abs (o_trunc B64Ops m v) <= 100000000)%Z) /\
   (Rabs (IZR (o_trunc B64Ops m v) - v * IZR m) < 1 + u64 * Rabs (v * IZR m) + eta64)%R.
 Proof. exact trunc_b64_both. Qed.
-Print Assumptions C16_average_binary64_truncated_sample.
+
+(* (a) exact conversions: after every history |sumOfData_| < 2^53 and double(sumOfData_), double(multiplier_),
+   double(data_.size()) and double(multiplier_) * data_.size() are computed without any rounding *)
+Theorem C16_average_binary64_conversions_exact : forall W h (m : Z), (0 < W)%nat -> (W <= 64)%nat -> (0 < m <= 1000000)%Z ->
+  Forall (fun x => (Z.abs x <= 100000000)%Z) (since_reset h []) ->
+  let s := fold_left i_step h (o_init W) in
+  let n := Z.of_nat (length (o_data s)) in
+  (Z.abs (o_sum s) < 2 ^ 53)%Z /\
+  nofZ B64Ops (o_sum s) = IZR (o_sum s) /\ nofZ B64Ops m = IZR m /\ nofZ B64Ops n = IZR n /\
+  nmul B64Ops (nofZ B64Ops m) (nofZ B64Ops n) = IZR (m * n).
+Proof. exact conversions_exact_b64. Qed.
 
 (* NO DRIFT, in binary64: for every window 1..64, every multiplier 1..10^6 and every history of updates and resets with
    truncated samples bounded by 1e8, sumOfData_, multiplier_, data_.size() and multiplier_ * data_.size() convert /
@@ -227,7 +232,6 @@ Theorem C16_average_binary64_no_drift : forall W h (m : Z), (0 < W)%nat -> (W <=
   o_average B64Ops m s = Some (rnd64 (zmean m L)) /\
   (Rabs (rnd64 (zmean m L) - zmean m L) <= u64 * Rabs (zmean m L))%R.
 Proof. exact average_b64_history. Qed.
-Print Assumptions C16_average_binary64_no_drift.
 
 (* the same about the OnlineAverage code as written (gen/SrcStats.v run at the binary64 dictionary), with hypotheses on
    the inputs only: precision in [1e-6, 1], window 1..64, |value * multiplier| <= 1e8 for every value fed *)
@@ -242,7 +246,6 @@ Theorem C16_average_binary64_code : forall (p : R) W (ops : list (oop R)), (0 < 
   (L <> [] -> src_avg_getAverage c = Some (rnd64 (zmean mult L)) /\
               (Rabs (rnd64 (zmean mult L) - zmean mult L) <= u64 * Rabs (zmean mult L))%R).
 Proof. exact average_b64_code. Qed.
-Print Assumptions C16_average_binary64_code.
 
 (* the variance in binary64 (seven roundings): once the window (2 <= W <= 64) is full the reported variance is within
    2^-53 (7 A + 9 B)/(W-1) + 3*2^-1075 of the exact unbiased sample variance zvar of the last W truncated samples, with
@@ -256,7 +259,6 @@ Theorem C16_average_binary64_variance_error : forall W h (m : Z), (2 <= W)%nat -
   exists v, o_variance B64Ops m s = Some v /\
     (Rabs (v - zvar m L) <= u64 * (7 * zsqsum m L + 9 * (INR W * zmean m L * zmean m L)) / (INR W - 1) + 3 * eta64)%R.
 Proof. exact variance_b64_history. Qed.
-Print Assumptions C16_average_binary64_variance_error.
 
 (* and about the OnlineVariance code as written, hypotheses on the inputs only *)
 Theorem C16_average_binary64_variance_code : forall (p : R) W (ops : list (oop R)), (2 <= W)%nat -> (W <= 64)%nat ->
@@ -270,7 +272,28 @@ Theorem C16_average_binary64_variance_code : forall (p : R) W (ops : list (oop R
   exists v, src_var_getVariance c = Some v /\
     (Rabs (v - zvar mult L) <= u64 * (7 * zsqsum mult L + 9 * (INR W * zmean mult L * zmean mult L)) / (INR W - 1) + 3 * eta64)%R.
 Proof. exact variance_b64_code. Qed.
-Print Assumptions C16_average_binary64_variance_code.
+
+(* Print Assumptions, grouped (one traversal per group instead of one per theorem: the source-tie theorems that do not
+   mention the reals are closed under the global context; the others depend on the standard real-number axioms only) *)
+Definition C16_source_tie_axiom_free_group := (@C16_source_tie_average_members,
+  @C16_source_tie_average_update,
+  @C16_source_tie_variance_members,
+  @C16_source_tie_variance_update,
+  @C16_source_tie_ring_members,
+  @C16_source_tie_average_history,
+  @C16_source_tie_variance_history,
+  @C16_source_tie_ring_history).
+Print Assumptions C16_source_tie_axiom_free_group.
+Definition C16_real_and_binary64_group := (@C16_source_tie_average_is_mean,
+  @C16_source_tie_variance_is_unbiased,
+  @C16_average_binary64_multiplier,
+  @C16_average_binary64_truncated_sample,
+  @C16_average_binary64_conversions_exact,
+  @C16_average_binary64_no_drift,
+  @C16_average_binary64_code,
+  @C16_average_binary64_variance_error,
+  @C16_average_binary64_variance_code).
+Print Assumptions C16_real_and_binary64_group.
 
 (* ---- the defects that were repaired (models of the code before the fix:, kept as documentation) ---- *)
 (* reset() kept index_: W = 3, history 100, reset, 1, 2, 3, 10 -> window {1,3,10}, not {2,3,10} *)
